@@ -1566,9 +1566,29 @@ static bool parse_cr_string(TokenContext &ctx, Chunk &pc, size_t q_idx)
          return(true);
       }
 
-      if (ctx.peek() == '\n')
+      if (  ctx.peek() == '\n'
+         || ctx.peek() == '\r')
       {
-         pc.Str().append(ctx.get());
+         // a line break in any of the three styles; count it for 'newlines = auto'
+         size_t ch = ctx.get();
+         pc.Str().append(ch);
+
+         if (ch == '\r')
+         {
+            if (ctx.peek() == '\n')
+            {
+               pc.Str().append(ctx.get());
+               ++LE_COUNT(CRLF);
+            }
+            else
+            {
+               ++LE_COUNT(CR);
+            }
+         }
+         else
+         {
+            ++LE_COUNT(LF);
+         }
          pc.SetNlCount(pc.GetNlCount() + 1);
          pc.SetType(CT_STRING_MULTI);
       }
